@@ -3,6 +3,7 @@ package eng
 import (
 	"go/ast"
 	"go/token"
+	"strings"
 
 	"golang.org/x/tools/go/ssa"
 )
@@ -453,6 +454,13 @@ func ResolveAll(v ssa.Value) []ssa.Value {
 					return
 				}
 			}
+			// a field of a context object that is written once, where the
+			// object is built (`c := &creator{fi: fi, ...}; c.create()`):
+			// the value it was built with
+			if st := p.onceStoredField(x); st != nil {
+				rec(st.Val, d+1, nil)
+				return
+			}
 		}
 		out = append(out, v)
 	}
@@ -478,6 +486,26 @@ func Resolve(v ssa.Value) ssa.Value {
 		return nz[0]
 	}
 	return v
+}
+
+// ResolveNZ is ResolveAll without the zero-value constants a helper returns
+// on its failure exits (kept when nothing else remains).
+func ResolveNZ(v ssa.Value) []ssa.Value {
+	all := ResolveAll(v)
+	if len(all) <= 1 {
+		return all
+	}
+	var nz []ssa.Value
+	for _, a := range all {
+		if c, ok := a.(*ssa.Const); ok && (c.Value == nil || c.IsNil() || isZeroConst(c)) {
+			continue
+		}
+		nz = append(nz, a)
+	}
+	if len(nz) == 0 {
+		return all
+	}
+	return nz
 }
 
 func isZeroConst(c *ssa.Const) bool {
@@ -593,4 +621,64 @@ func spilledValue(ld *ssa.UnOp) ssa.Value {
 		}
 	}
 	return last
+}
+
+// onceStoredField: ld loads a field of an unexported struct type of the
+// module; the field is stored at exactly one place in the whole module, its
+// address is never taken otherwise, and that one store writes the very cell
+// that is loaded (same object by CellID). Returns the store.
+func (p *Prog) onceStoredField(ld *ssa.UnOp) *ssa.Store {
+	if ld.Op != token.MUL {
+		return nil
+	}
+	fa, ok := ld.X.(*ssa.FieldAddr)
+	if !ok {
+		return nil
+	}
+	if st, done := p.onceField[fa]; done {
+		return st
+	}
+	if p.onceField == nil {
+		p.onceField = map[*ssa.FieldAddr]*ssa.Store{}
+	}
+	p.onceField[fa] = nil
+	fv := FieldVar(fa.X.Type(), fa.Field)
+	if fv == nil || fv.Pkg() == nil || !p.inModulePkg(fv.Pkg().Path()) {
+		return nil
+	}
+	owner := FieldOwnerName(fa.X.Type(), fa.Field)
+	if i := strings.LastIndex(owner, "."); i > 0 {
+		tn := owner[:i]
+		if j := strings.LastIndex(tn, "."); j >= 0 {
+			tn = tn[j+1:]
+		}
+		if tn == "" || (tn[0] >= 'A' && tn[0] <= 'Z') {
+			return nil // exported types are built by callers too
+		}
+	}
+	cs := p.Census()
+	if len(cs.FieldEscapes(fv)) > 0 {
+		return nil
+	}
+	var stores []*ssa.Store
+	for _, a := range cs.FieldAddrs(fv) {
+		for _, r := range Referrers(a) {
+			if s, ok := r.(*ssa.Store); ok && s.Addr == ssa.Value(a) {
+				stores = append(stores, s)
+			}
+		}
+	}
+	if len(stores) != 1 || !rootIsFreshAlloc(stores[0].Addr, stores[0].Parent()) {
+		return nil // not a field set once where the object is built
+	}
+	id := p.CellID(fa)
+	if id == "" || id != p.CellID(stores[0].Addr) {
+		return nil
+	}
+	p.onceField[fa] = stores[0]
+	return stores[0]
+}
+
+func (p *Prog) inModulePkg(path string) bool {
+	return path == ModulePath || strings.HasPrefix(path, ModulePath+"/")
 }
